@@ -575,9 +575,14 @@ package car
 //@   call[GenerateIndex#0] assert over_that_file_with_the_options [C03]: ref(arg0) == ref(f) && arg1 == opts
 
 //@ func traverse
-//@   trusted
 //@   note the traversal engine (go-ipld-prime) is a dependency: it reaches tracked state only through the link system it is given
-//@   ensures root_load_error_is_reported [C15]: true
+//@   let sel, cerr := call[selector.CompileSelector#0]
+//@   let rootNode, lerr := call[LinkSystem.Load#0]
+//@   call[selector.CompileSelector#0] assert the_given_selector [C15]: ref(arg0) == ref(s)
+//@   call[Progress.WalkMatching#0] assert visits_a_link_once_unless_duplicates_are_allowed [C15]: arg0.Cfg.LinkVisitOnlyOnce == !opts.BlockstoreAllowDuplicatePuts && arg0.Cfg.Ctx == ctx
+//@   call[LinkSystem.Load#0] assert the_root_through_the_given_link_system [C15]: ref(arg0) == ref(ls)
+//@   call[Progress.WalkMatching#0] assert from_the_loaded_root_with_the_compiled_selector [C15]: ref(arg1) == ref(rootNode) && ref(arg2) == ref(sel)
+//@   check a_successful_traversal_loaded_the_root_and_walked [C15]: err == nil ==> executed("LinkSystem.Load#0") && executed("Progress.WalkMatching#0")
 
 //@ func MaxTraversalLinks
 //@   closure[0]
